@@ -11,6 +11,7 @@ structure Chk where
   idxStore : Bool                        -- may `l[i] = v` occur (any container)
   retag    : Bool → Bool                 -- may the fused store `L[X] = C(L[X].get_value())` (true) / `L[X] = C()` (false) occur
   raise    : Bool                        -- may `raise` occur
+  index    : Bool := true                -- may a subscript READ `l[i]` occur
 
 mutual
 def Expr.ok (C : Chk) : Expr → Bool
@@ -22,7 +23,7 @@ def Expr.ok (C : Chk) : Expr → Bool
   | .and a b => a.ok C && b.ok C
   | .or a b => a.ok C && b.ok C
   | .not a => a.ok C
-  | .index l i => l.ok C && i.ok C
+  | .index l i => C.index && l.ok C && i.ok C
   | .slice l lo hi => l.ok C && Expr.okOpt C lo && Expr.okOpt C hi
   | .attr e _ => e.ok C
   | .call f args => f.ok C && Expr.okList C args
@@ -117,5 +118,12 @@ def Chk.value : Chk := { prim := noLenPrim, idxStore := false, retag := fun _ =>
 
 /-- no `raise` statement -/
 def Chk.noRaise : Chk := { prim := fun _ _ => true, idxStore := true, retag := fun _ => true, raise := false }
+
+/-- nothing that can raise IndexError: no subscript read, no subscript store, no fused store, no `pop` -/
+def noIdxPrim : Prim → List Expr → Bool
+  | .listPop, _ => false
+  | _, _ => true
+
+def Chk.noIndex : Chk := { prim := noIdxPrim, idxStore := false, retag := fun _ => false, raise := true, index := false }
 
 end Vsgm.Prog
